@@ -214,6 +214,9 @@ func H_conc_w() {
 	a := hPattern(vfParam("n1"), 0)
 	b := hPattern(vfParam("n2"), 7)
 	base := []Option{BlockSizeOption(Block64Kb), BlockChecksumOption(vfParam("bc") != 0), ChecksumOption(vfParam("cc") != 0)}
+	if vfParam("legacy") != 0 {
+		base = []Option{LegacyOption(true)}
+	}
 
 	// the fault-free sequential run of the same call sequence
 	var seq, seq2 hSink
@@ -360,7 +363,7 @@ func H_conc_r() {
 		stream = stream[:cut]
 	case 2:
 		if cut < len(stream) {
-			stream[cut] ^= 0x55
+			stream[cut] ^= byte(vfParam("mask"))
 		}
 	case 3:
 		src.failAt = cut
